@@ -537,6 +537,7 @@ fn block_comment_skip() {
 //   process_escapes_into        <- C30.lex.escapes.post      (reads its slice, may push diagnostics)
 //   handle_multiline_string     <- C04.lex.multiline.frame   (one StringLit token, cursor within the text)
 //   TokenKind::keyword_from_str <- C04.lex.keyword_table     (Some(k) only for k's own spelling)
+//   Lexer::new                  <- meaning of `source.chars().collect()` (trusted std)
 //   is_poly_ident               <- its doc comment (`T, U, V, T2, T123`), ASCII identifiers only
 // Literal *contents* are dropped by the stubs: no clause below observes them.
 
@@ -599,6 +600,16 @@ fn stub_scan(lexer: &Lexer, start: usize, delim: &[char], stop_at_newline: bool)
     None
 }
 
+/// Lexer::new(source) by its meaning (`source.chars().collect()`, trusted std): the lexer
+/// over the harness's char sequence.  (String -> Vec<char> is out of CBMC's reach.)
+static mut TOK_IN: [char; 8] = ['\0'; 8];
+static mut TOK_LEN: usize = 0;
+fn stub_lexer_new(_source: &str) -> Lexer {
+    let mut v = unsafe { TOK_IN }.to_vec();
+    v.truncate(unsafe { TOK_LEN });
+    lexer_on(v)
+}
+
 fn stub_keyword_from_str(s: &str) -> Option<TokenKind> {
     // no keyword can be spelled over the harness alphabet {a, x, n, 7, _}
     let b = s.as_bytes();
@@ -637,10 +648,20 @@ fn stub_is_poly_ident(ident: &str) -> bool {
 #[kani::stub(scan_for_unescaped_delim, stub_scan)]
 #[kani::stub(TokenKind::keyword_from_str, stub_keyword_from_str)]
 #[kani::stub(is_poly_ident, stub_is_poly_ident)]
+#[kani::stub(Lexer::new, stub_lexer_new)]
 fn tokenize_total() {
     const N: usize = @N_TOK@;
     let inp = any_input::<N, 16>(&T_ALL);
-    let mut ctx = mk_ctx(to_source(&inp));
+    unsafe {
+        let mut i = 0;
+        while i < N {
+            TOK_IN[i] = inp.cs[i];
+            i += 1;
+        }
+        TOK_LEN = inp.len;
+    }
+    // the source text itself is only read by Lexer::new, which is replaced by its meaning
+    let mut ctx = mk_ctx(String::new());
     let toks = tokenize_file(&mut ctx, 0);
     let n = toks.len();
     kani::cover!(n == N + 1, "reachable: one token per char");
